@@ -32,9 +32,11 @@ func (x *Exec) scalarOf(v Value, t types.Type) *Term {
 	if sc, ok := v.(Sc); ok {
 		return sc.T
 	}
-	s, ok := x.scalarSort(t)
-	if !ok {
-		s = IntSort
+	s := IntSort
+	if t != nil {
+		if s2, ok := x.scalarSort(t); ok {
+			s = s2
+		}
 	}
 	return x.freshTerm("opq", s)
 }
@@ -192,7 +194,7 @@ func (x *Exec) ident(e *ast.Ident, st *State) Value {
 		}
 		return Sc{IntC(0)}
 	case *types.Func:
-		return Fv{Name: o.FullName()}
+		return Sc{funcID(o.FullName())}
 	case *types.Const:
 		return x.constVal(st, o.Val(), o.Type(), e)
 	}
@@ -607,7 +609,7 @@ func (x *Exec) selector(e *ast.SelectorExpr, st *State) Value {
 	}
 	if sel.Kind() != types.FieldVal {
 		// method value
-		return Fv{Name: sel.Obj().(*types.Func).FullName()}
+		return Sc{funcID(sel.Obj().(*types.Func).FullName())}
 	}
 	base := x.expr(e.X, st)
 	return x.loadPath(st, x.info.TypeOf(e.X), base, sel, e)
@@ -984,6 +986,15 @@ func (x *Exec) compositeLitOf(e *ast.CompositeLit, st *State, t types.Type) Valu
 
 func (x *Exec) convertTo(st *State, v Value, from, to types.Type) Value {
 	if from == nil || to == nil || types.Identical(from, to) {
+		return v
+	}
+	if _, toIface := to.Underlying().(*types.Interface); toIface {
+		if _, isSc := v.(Sc); !isSc {
+			// a non-pointer value boxed into an interface: a fresh object
+			// (its content is not tracked through the interface)
+			x.abstr["value of type "+from.String()+" boxed into an interface"] = true
+			return Sc{x.alloc(st, "box")}
+		}
 		return v
 	}
 	fi, okf := intInfoOf(from)
